@@ -112,7 +112,7 @@ public:
         Rng r(seed);
         Plan p;
         p.set_knob("irq_driven", (s64)r.chance(1, 2));
-        p.set_knob("reenter", (s64)r.below(3));
+        p.set_knob("reenter", (s64)r.below(4));
         p.set_knob("reconf", (s64)r.chance(1, 3));
         p.set_knob("sem", (s64)r.chance(1, 2));
         int hosts = tier.thorough && r.chance(1, 2) ? 2 : (r.chance(1, 4) ? 2 : 1);
@@ -243,6 +243,11 @@ public:
                     (void)sh.box->t->PeekRecvData(ch);
                     (void)sh.box->t->GetSemaphore();
                     (void)sh.box->t->SendDataIsEmpty(ch);
+                } else if (sh.reenter == 3) {
+                    // the host's callback touches the semaphores in both directions from inside the handler
+                    sh.box->t->SetSemaphore((u16)(1u << ch));
+                    sh.box->t->ClearSemaphore((u16)(0x100u << ch));
+                    (void)sh.box->t->RecvDataIsReady((u8)((ch + 1) % 3));
                 }
             });
         }
